@@ -1,6 +1,23 @@
 import CoclsModel.Mutex
 /-!
 # Invariant proofs for the mutex micro-step model (`Mutex.lean`) — C07 / C08
+
+* **Logical agents.** `arun c s l` runs a list `l` of agent activities `(t, a)` (`agentStep c s t a`: the code of
+  contender `a` runs on OS thread `t` up to and including its next atomic operation).  `Guarded c s l` demands of every
+  activity only `canRun`: `pc a ∉ {parked, done}` and `pc a = blocked → flag a` — a parked coroutine runs again only
+  after a hand-over made it `crit`, a thread blocked in `flag.wait` only once its flag is set; *everything else may
+  run at any time on any thread*.  `Reachable c s`: `s` agrees with some `arun c (init c) l`, `l` guarded, on all fields
+  but the executor's bookkeeping `cur`/`rq`/`tmain` (never read by `agentStep`: `agentStep_exec_irrel`).
+* **Configurations.** Any `Cfg` (number of agents, kinds, rounds) with `Cfg.WF`: `co_await lock()` rounds occur only in
+  coroutines (a blocking contender's `lock().wait()` constructs a fresh `sync_awaiter`, `Pc.subInit`; a `co` round of a
+  `sync` agent would reuse a stale flag in the model, which no C++ program can do).
+* **Invariant** `Inv` (Appendix B of DESIGN.md: I1–I6 plus grant accounting), `inv_init`, one preservation lemma per
+  step (`inv_top_acq` … `inv_hand_coro`, closed clause by clause by `grind` after exposing the projections),
+  `inv_step`, `inv_arun`, `inv_reachable`.
+* **OS threads.** `threadStep_sim`/`threadStep_is_arun`: every `threadStep` of an enabled thread is a (possibly empty)
+  guarded activity list (executor invariants `TInv`: who may sit in `cur`/`rq`; `LInv`: every runnable coroutine is
+  hosted by a live thread).  `trun_init_reachable`: every schedule of enabled threads stays inside `Reachable`;
+  `threads_stuck_done`: no enabled thread ⇒ everybody done.
 -/
 namespace Cocls.Mutex
 
@@ -53,12 +70,63 @@ def doorEnd : List Elem → Prop
 @[simp] theorem doorEnd_nil : doorEnd [] = False := rfl
 @[simp] theorem doorEnd_door (r) : doorEnd (Elem.door :: r) = (r = []) := rfl
 @[simp] theorem doorEnd_node (a r) : doorEnd (Elem.node a :: r) = doorEnd r := rfl
+/-- nodes only, the bottom one is `o`'s (the request that found the mutex free; its `_next` is null) -/
+def nodeEnd (o : Nat) : List Elem → Prop
+  | [] => False
+  | Elem.door :: _ => False
+  | Elem.node a :: r => (r = [] ∧ a = o) ∨ nodeEnd o r
+
+@[simp] theorem nodeEnd_nil (o) : nodeEnd o [] = False := rfl
+@[simp] theorem nodeEnd_door (o r) : nodeEnd o (Elem.door :: r) = False := rfl
+@[simp] theorem nodeEnd_node (o a r) : nodeEnd o (Elem.node a :: r) = ((r = [] ∧ a = o) ∨ nodeEnd o r) := rfl
 @[simp] theorem nodesOf_nil : nodesOf [] = [] := rfl
 @[simp] theorem nodesOf_door (r) : nodesOf (Elem.door :: r) = [] := rfl
 @[simp] theorem nodesOf_node (a r) : nodesOf (Elem.node a :: r) = a :: nodesOf r := rfl
 @[simp] theorem seenOf_nil : seenOf [] = Seen.null := rfl
 @[simp] theorem seenOf_door (r) : seenOf (Elem.door :: r) = Seen.door := rfl
 @[simp] theorem seenOf_node (a r) : seenOf (Elem.node a :: r) = Seen.node a := rfl
+
+theorem doorEnd_iff (r : List Elem) : doorEnd r ↔ ∃ xs : List Nat, r = xs.map Elem.node ++ [Elem.door] := by
+  induction r with
+  | nil => simp
+  | cons e r ih =>
+    cases e with
+    | door =>
+      simp only [doorEnd_door]
+      constructor
+      · intro h; exact ⟨[], by simp [h]⟩
+      · rintro ⟨xs, h⟩
+        cases xs with
+        | nil => simpa using h
+        | cons x xs => simp at h
+    | node a =>
+      simp only [doorEnd_node, ih]
+      constructor
+      · rintro ⟨xs, h⟩; exact ⟨a :: xs, by simp [h]⟩
+      · rintro ⟨xs, h⟩
+        cases xs with
+        | nil => simp at h
+        | cons x xs => simp at h; exact ⟨xs, h.2⟩
+
+theorem nodeEnd_iff (o : Nat) (r : List Elem) : nodeEnd o r ↔ ∃ xs : List Nat, r = xs.map Elem.node ++ [Elem.node o] := by
+  induction r with
+  | nil => simp
+  | cons e r ih =>
+    cases e with
+    | door =>
+      simp only [nodeEnd_door, false_iff]
+      rintro ⟨xs, h⟩
+      cases xs <;> simp at h
+    | node a =>
+      simp only [nodeEnd_node, ih]
+      constructor
+      · rintro (⟨h1, h2⟩ | ⟨xs, h⟩)
+        · exact ⟨[], by simp [h1, h2]⟩
+        · exact ⟨a :: xs, by simp [h]⟩
+      · rintro ⟨xs, h⟩
+        cases xs with
+        | nil => simp at h; exact Or.inl ⟨h.2, h.1⟩
+        | cons x xs => simp at h; exact Or.inr ⟨xs, h.2⟩
 
 theorem seenOf_eq_null {r : List Elem} : seenOf r = Seen.null ↔ r = [] := by
   cases r with
@@ -160,9 +228,11 @@ structure Inv (c : Cfg) (s : State) : Prop where
   failT : ∀ a r, (a, r) ∈ s.failReqs → ∃ rd, (c.rounds a)[r]? = some rd ∧ rd.fl = Flavour.try_
   /-- the found-null acquirer is older than every request published behind it -/
   bldFirst : ∀ o y, s.pc o = Pc.build → y ∈ nodesOf s.req → y ≠ o → s.stamp o < s.stamp y
+  /-- (I3) found-null acquirer before its exchange: the stack is `[xk, …, x1, o]`, no doorman -/
+  bldEnd : ∀ o, s.pc o = Pc.build → nodeEnd o s.req
 
 theorem inv_init (c : Cfg) : Inv c (init c) := by
-  refine ⟨?_, ?_, ?_, ?_, ?_, ?_, ?_, ?_, ?_, ?_, ?_, ?_, ?_, ?_, ?_, ?_, ?_, ?_, ?_, ?_, ?_⟩ <;>
+  refine ⟨?_, ?_, ?_, ?_, ?_, ?_, ?_, ?_, ?_, ?_, ?_, ?_, ?_, ?_, ?_, ?_, ?_, ?_, ?_, ?_, ?_, ?_⟩ <;>
     simp only [init, Owner, Listed, Holding, Entering]
   all_goals try (intro a; split <;> simp [isOwner, isWaiting, isHolding, isEntering]; done)
   all_goals first | simp; done | (intro a; split <;> simp <;> omega)
@@ -206,8 +276,8 @@ theorem stampQ_push {st : Nat → Nat} {q l : List Nat} {a k : Nat} {L : Nat →
 set_option hygiene false in
 /-- destructure the invariant, split the goal into its clauses, expose the projections -/
 macro "inv_split" h:ident : tactic => `(tactic| (
-  obtain ⟨excl, free, door, bld, relB, relH, cnt, kindP, kindW, subF, stampQ, stampC, rnd, tryF, gr, greq, glog, incsA, incsN, failT, bldFirst⟩ := $h
-  refine ⟨?_, ?_, ?_, ?_, ?_, ?_, ?_, ?_, ?_, ?_, ?_, ?_, ?_, ?_, ?_, ?_, ?_, ?_, ?_, ?_, ?_⟩ <;>
+  obtain ⟨excl, free, door, bld, relB, relH, cnt, kindP, kindW, subF, stampQ, stampC, rnd, tryF, gr, greq, glog, incsA, incsN, failT, bldFirst, bldEnd⟩ := $h
+  refine ⟨?_, ?_, ?_, ?_, ?_, ?_, ?_, ?_, ?_, ?_, ?_, ?_, ?_, ?_, ?_, ?_, ?_, ?_, ?_, ?_, ?_, ?_⟩ <;>
     simp only [setPc, upd_apply, Owner, Listed, Holding, Entering, curRound, List.append_nil, List.nil_append,
       List.reverse_eq_nil_iff, List.count_append, List.count_reverse, List.count_nil, List.reverse_nil,
       List.reverse_reverse, ne_eq, count_filter_ne, nodesOf_node, nodesOf_door, nodesOf_nil] at *))
@@ -215,7 +285,7 @@ macro "inv_split" h:ident : tactic => `(tactic| (
 /-- per-agent case analysis by `grind` -/
 macro "inv_grind" : tactic => `(tactic|
     grind [isOwner, isWaiting, isHolding, isEntering, doorEnd_nil, nodesOf_door, nodesOf_nil, doorEnd_door,
-           doorEnd_node, nodesOf_node, Cfg.WF])
+           doorEnd_node, nodesOf_node, nodeEnd_nil, nodeEnd_door, nodeEnd_node, Cfg.WF])
 
 macro "inv_auto" h:ident : tactic => `(tactic| (inv_split $h <;> inv_grind))
 
@@ -527,11 +597,11 @@ theorem canRun_core_congr {s1 s2 : State} (a : Nat) (h : core s1 = core s2) : ca
 
 theorem inv_core (h : Inv c s) : Inv c (core s) :=
   ⟨h.excl, h.free, h.door, h.bld, h.relB, h.relH, h.cnt, h.kindP, h.kindW, h.subF, h.stampQ, h.stampC, h.rnd, h.tryF,
-   h.gr, h.greq, h.glog, h.incsA, h.incsN, h.failT, h.bldFirst⟩
+   h.gr, h.greq, h.glog, h.incsA, h.incsN, h.failT, h.bldFirst, h.bldEnd⟩
 
 theorem inv_of_core (h : Inv c (core s)) : Inv c s :=
   ⟨h.excl, h.free, h.door, h.bld, h.relB, h.relH, h.cnt, h.kindP, h.kindW, h.subF, h.stampQ, h.stampC, h.rnd, h.tryF,
-   h.gr, h.greq, h.glog, h.incsA, h.incsN, h.failT, h.bldFirst⟩
+   h.gr, h.greq, h.glog, h.incsA, h.incsN, h.failT, h.bldFirst, h.bldEnd⟩
 
 theorem inv_core_congr {s1 s2 : State} (e : core s1 = core s2) (h : Inv c s1) : Inv c s2 :=
   inv_of_core (e ▸ inv_core h)
@@ -920,14 +990,244 @@ theorem sim_act (hwf : c.WF) {t a : Nat} (hI : Inv c s) (hT : TInv c s) (hrun : 
     have := agentStep_noop (c := c) (t := t) hc' hw
     exact ⟨[], trivial, this, by rw [this]; exact hI, by rw [this]; exact hT⟩
 
-theorem sim_continue {s s1 s2 R : State} {l0 : List (Nat × Nat)} (hl0 : Guarded c s l0) (he : s1 = arun c s l0)
-    (h12 : core s2 = core s1)
-    (ih : ∃ l2, Guarded c s2 l2 ∧ core R = core (arun c s2 l2) ∧ TInv c R) :
-    ∃ l, Guarded c s l ∧ core R = core (arun c s l) ∧ TInv c R := by
-  obtain ⟨l2, hg2, hr, hT⟩ := ih
-  subst he
-  have := run_core_congr c l2 h12
-  exact ⟨l0 ++ l2, (guarded_append _ _ _).2 ⟨hl0, this.1.1 hg2⟩, by rw [arun_append, hr]; exact this.2, hT⟩
+/-! ## OS-thread level: no runnable coroutine is ever lost by the executor glue (deadlock freedom for threads) -/
+
+/-- where the executor glue puts agents -/
+structure Placement (c : Cfg) (s s' : State) (t a : Nat) (o : Outcome) : Prop where
+  /-- nothing leaves the thread's ready queue -/
+  rqMono : ∀ x, x ∈ s.rq t → x ∈ s'.rq t
+  /-- a coroutine that is handed the lock is put on this thread (current coroutine or ready queue) -/
+  granted : ∀ b, grantee s a = some b → c.kind b = AKind.coro → s'.cur t = some b ∨ b ∈ s'.rq t
+  /-- the running coroutine stays on the thread unless it parked or finished -/
+  self : c.kind a = AKind.coro → s.cur t = some a → s'.cur t = some a ∨ a ∈ s'.rq t ∨ s'.pc a = Pc.parked ∨ s'.pc a = Pc.done
+  fin : o = Outcome.finished → s'.pc a = Pc.done ∧ s'.cur = s.cur ∧ s'.rq = s.rq
+  susp : o = Outcome.suspended → s'.pc a = Pc.parked ∨ a ∈ s'.rq t
+
+theorem handOver_place (c : Cfg) (s : State) (t a : Nat) (hpc : s.pc a = Pc.afterCs ∨ s.pc a = Pc.relHand) :
+    Placement c s (handOver c s t a).1 t a (handOver c s t a).2.2 := by
+  have hg : grantee s a = s.queue.head? := by simp [grantee, hpc]
+  unfold handOver
+  cases hq : s.queue with
+  | nil => constructor <;> simp [setPc, hg, hq] <;> grind
+  | cons b rest =>
+    dsimp only
+    cases hkb : c.kind b with
+    | sync => constructor <;> simp [setPc, hg, hq] <;> grind
+    | coro =>
+      dsimp only
+      cases hka : c.kind a with
+      | sync => constructor <;> simp [setPc, hg, hq] <;> grind
+      | coro =>
+        dsimp only
+        split <;> constructor <;> simp [setPc, hg, hq] <;> grind
+
+theorem placement_incs {s s' : State} {t a k : Nat} {o : Outcome}
+    (h : Placement c { s with incs := k } s' t a o) : Placement c s s' t a o :=
+  ⟨h.rqMono, h.granted, h.self, h.fin, h.susp⟩
+
+theorem agentStep_afterCs_handOver (c : Cfg) (s : State) (t a : Nat) (hA : s.pc a = Pc.afterCs) (hq : s.queue ≠ []) :
+    agentStep c s t a = handOver c { s with incs := s.incs - 1 } t a := by
+  unfold agentStep
+  simp only [hA]
+
+theorem agentStep_place (c : Cfg) (s : State) (t a : Nat) :
+    Placement c s (agentStep c s t a).1 t a (agentStep c s t a).2.2 := by
+  by_cases hA : s.pc a = Pc.afterCs
+  · have hg : grantee s a = s.queue.head? := by simp [grantee, hA]
+    by_cases hq : s.queue = []
+    · unfold agentStep
+      simp only [hA, hq]
+      split <;> constructor <;> simp [setPc, hg, hq] <;> grind
+    · rw [agentStep_afterCs_handOver c s t a hA hq]
+      exact placement_incs (handOver_place c { s with incs := s.incs - 1 } t a (Or.inl hA))
+  by_cases hR : s.pc a = Pc.relHand
+  · unfold agentStep
+    simp only [hR]
+    exact handOver_place c s t a (Or.inr hR)
+  · have hg : grantee s a = none := by simp [grantee, hA, hR]
+    unfold agentStep
+    split <;> (try split) <;> (try split) <;> (try split) <;> constructor <;> simp_all [setPc] <;> grind
+
+/-- location invariant of the thread-level runs: every runnable coroutine is hosted by a live thread -/
+structure LInv (c : Cfg) (s : State) : Prop where
+  loc : ∀ a, c.kind a = AKind.coro → canRun s a = true →
+          (∃ t, s.cur t = some a ∨ a ∈ s.rq t) ∨ s.tmain a = TMain.coroStart
+  live : ∀ t, (s.cur t ≠ none ∨ s.rq t ≠ []) → s.tmain t ≠ TMain.finished
+  syncLive : ∀ a, c.kind a = AKind.sync → s.pc a ≠ Pc.done → s.tmain a = TMain.syncBody
+
+theorem linv_init (c : Cfg) : LInv c (init c) := by
+  refine ⟨?_, ?_, ?_⟩
+  · intro a hk hcan
+    right
+    by_cases h : a < c.n
+    · simp [init, h, hk]
+    · simp [init, canRun, h] at hcan
+  · intro t h; simp [init] at h
+  · intro a hk hpc
+    by_cases h : a < c.n
+    · simp [init, h, hk]
+    · simp [init, h] at hpc
+
+theorem linv_agentStep {t a : Nat} (hI : Inv c s) (hL : LInv c s) (hrun : RunsAs c s t a)
+    (hlive : s.tmain t ≠ TMain.finished) : LInv c (agentStep c s t a).1 := by
+  have hE := agentStep_exec c s t a
+  have hP := agentStep_place c s t a
+  have hpo := step_pc_other c s t a
+  refine ⟨?_, ?_, ?_⟩
+  · intro x hkx hcan
+    by_cases hxa : x = a
+    · subst hxa
+      rcases hrun with ⟨hk, _⟩ | ⟨_, hc⟩
+      · rw [hk] at hkx; cases hkx
+      · rcases hP.self hkx hc with h | h | h | h
+        · exact Or.inl ⟨t, Or.inl h⟩
+        · exact Or.inl ⟨t, Or.inr h⟩
+        · simp [canRun, h] at hcan
+        · simp [canRun, h] at hcan
+    · by_cases hg : grantee s a = some x ∧ c.kind x = AKind.coro
+      · exact Or.inl ⟨t, hP.granted x hg.1 hg.2⟩
+      · have hpc : (agentStep c s t a).1.pc x = s.pc x := by rw [hpo x hxa, if_neg hg]
+        have hnb : s.pc x ≠ Pc.blocked := by
+          intro h; have := hI.kindW x (Or.inr h); rw [hkx] at this; cases this
+        have hcan0 : canRun s x = true := by
+          unfold canRun at hcan ⊢
+          rw [hpc] at hcan
+          generalize s.pc x = p at *
+          cases p <;> simp_all
+        rcases hL.loc x hkx hcan0 with ⟨t', h⟩ | h
+        · left
+          by_cases ht : t' = t
+          · subst ht
+            rcases h with h | h
+            · exfalso
+              rcases hrun with ⟨_, e, hc, _⟩ | ⟨_, hc⟩
+              · subst e; rw [hc] at h; cases h
+              · rw [hc] at h; exact hxa (Option.some.inj h).symm
+            · exact ⟨t', Or.inr (hP.rqMono x h)⟩
+          · exact ⟨t', by rw [(hE.other t' ht).1, (hE.other t' ht).2]; exact h⟩
+        · right; rw [hE.tmain]; exact h
+  · intro t' h
+    rw [hE.tmain]
+    by_cases ht : t' = t
+    · subst ht; exact hlive
+    · rw [(hE.other t' ht).1, (hE.other t' ht).2] at h; exact hL.live t' h
+  · intro x hkx hpc
+    rw [hE.tmain]
+    apply hL.syncLive x hkx
+    intro hd
+    by_cases hxa : x = a
+    · subst hxa
+      have := agentStep_noop (c := c) (t := t) (s := s) (a := x) (by simp [canRun, hd]) (by simp [hd])
+      rw [this] at hpc; exact hpc hd
+    · rw [hpo x hxa] at hpc
+      split at hpc
+      · rename_i h; rw [hkx] at h; cases h.2
+      · exact hpc hd
+
+theorem linv_clear_cur (hL : LInv c s) {t b : Nat} (hb : s.cur t = some b) (hnr : canRun s b = false ∨ b ∈ s.rq t) :
+    LInv c { s with cur := upd s.cur t none } := by
+  obtain ⟨h1, h2, h3⟩ := hL
+  refine ⟨?_, ?_, h3⟩
+  · intro x hkx hcan'
+    have hcan : canRun s x = true := hcan'
+    clear hcan'
+    rcases h1 x hkx hcan with ⟨t', h⟩ | h
+    · left
+      by_cases ht : t' = t
+      · subst ht
+        rcases h with h | h
+        · rw [hb] at h
+          have hxb : b = x := Option.some.inj h
+          subst hxb
+          rcases hnr with hn | hn
+          · rw [hn] at hcan; cases hcan
+          · exact ⟨t', Or.inr hn⟩
+        · exact ⟨t', Or.inr h⟩
+      · exact ⟨t', by simpa [upd_apply, ht] using h⟩
+    · exact Or.inr h
+  · intro t' h
+    apply h2 t'
+    by_cases ht : t' = t
+    · subst ht; simp at h; exact Or.inr h
+    · simpa [upd_apply, ht] using h
+
+theorem linv_pop (hL : LInv c s) {t b : Nat} {rest : List Nat} (hcur : s.cur t = none) (hrq : s.rq t = b :: rest) :
+    LInv c { s with rq := upd s.rq t rest, cur := upd s.cur t (some b) } := by
+  obtain ⟨h1, h2, h3⟩ := hL
+  refine ⟨?_, ?_, h3⟩
+  · intro x hkx hcan'
+    have hcan : canRun s x = true := hcan'
+    clear hcan'
+    rcases h1 x hkx hcan with ⟨t', h⟩ | h
+    · left
+      by_cases ht : t' = t
+      · subst ht
+        rcases h with h | h
+        · rw [hcur] at h; cases h
+        · rw [hrq] at h
+          rcases List.mem_cons.1 h with e | e
+          · exact ⟨t', Or.inl (by simp [e])⟩
+          · exact ⟨t', Or.inr (by simpa using e)⟩
+      · exact ⟨t', by simpa [upd_apply, ht] using h⟩
+    · exact Or.inr h
+  · intro t' h
+    apply h2 t'
+    by_cases ht : t' = t
+    · subst ht; right; rw [hrq]; simp
+    · simpa [upd_apply, ht] using h
+
+theorem linv_start (hL : LInv c s) {t : Nat} (hcur : s.cur t = none) (htm : s.tmain t = TMain.coroStart) :
+    LInv c { s with tmain := upd s.tmain t TMain.coroFlush, cur := upd s.cur t (some t) } := by
+  obtain ⟨h1, h2, h3⟩ := hL
+  refine ⟨?_, ?_, ?_⟩
+  · intro x hkx hcan'
+    have hcan : canRun s x = true := hcan'
+    clear hcan'
+    rcases h1 x hkx hcan with ⟨t', h⟩ | h
+    · left
+      by_cases ht : t' = t
+      · subst ht
+        rcases h with h | h
+        · rw [hcur] at h; cases h
+        · exact ⟨t', Or.inr h⟩
+      · exact ⟨t', by simpa [upd_apply, ht] using h⟩
+    · by_cases hx : x = t
+      · subst hx; exact Or.inl ⟨x, Or.inl (by simp)⟩
+      · right; simpa [upd_apply, hx] using h
+  · intro t' h
+    by_cases ht : t' = t
+    · subst ht; simp
+    · simp only [upd_apply, ht, if_false] at h ⊢; exact h2 t' h
+  · intro x hkx hpc
+    have := h3 x hkx hpc
+    by_cases hx : x = t
+    · subst hx; rw [htm] at this; cases this
+    · simpa [upd_apply, hx] using this
+
+theorem linv_finish (hL : LInv c s) {t : Nat} (hcur : s.cur t = none) (hrq : s.rq t = [])
+    (hnc : s.tmain t ≠ TMain.coroStart) (hd : c.kind t = AKind.sync → s.pc t = Pc.done) :
+    LInv c { s with tmain := upd s.tmain t TMain.finished } := by
+  obtain ⟨h1, h2, h3⟩ := hL
+  refine ⟨?_, ?_, ?_⟩
+  · intro x hkx hcan'
+    have hcan : canRun s x = true := hcan'
+    clear hcan'
+    rcases h1 x hkx hcan with h | h
+    · exact Or.inl h
+    · right
+      by_cases hx : x = t
+      · subst hx; exact absurd h hnc
+      · simpa [upd_apply, hx] using h
+  · intro t' h
+    by_cases ht : t' = t
+    · subst ht; rcases h with h | h
+      · exact absurd hcur h
+      · exact absurd hrq h
+    · simp only [upd_apply, ht, if_false]; exact h2 t' h
+  · intro x hkx hpc
+    by_cases hx : x = t
+    · subst hx; exact absurd (hd hkx) hpc
+    · simpa [upd_apply, hx] using h3 x hkx hpc
 
 theorem tinv_clear_cur (hT : TInv c s) (t : Nat) : TInv c { s with cur := upd s.cur t none } := by
   obtain ⟨h1, h2, h3, h4, h5⟩ := hT
@@ -947,13 +1247,23 @@ theorem tinv_finish (hT : TInv c s) (t : Nat) : TInv c { s with tmain := upd s.t
   obtain ⟨h1, h2, h3, h4, h5⟩ := hT
   constructor <;> simp only [upd_apply] <;> grind
 
-theorem threadStep_sim (hwf : c.WF) : ∀ (fuel : Nat) (s : State) (t : Nat), Inv c s → TInv c s → WakeOk s t →
-    ∃ l, Guarded c s l ∧ core (threadStep c fuel s t).1 = core (arun c s l) ∧ TInv c (threadStep c fuel s t).1 := by
+theorem sim_continue {s s1 s2 R : State} {l0 : List (Nat × Nat)} (hl0 : Guarded c s l0) (he : s1 = arun c s l0)
+    (h12 : core s2 = core s1)
+    (ih : ∃ l2, Guarded c s2 l2 ∧ core R = core (arun c s2 l2) ∧ TInv c R ∧ LInv c R) :
+    ∃ l, Guarded c s l ∧ core R = core (arun c s l) ∧ TInv c R ∧ LInv c R := by
+  obtain ⟨l2, hg2, hr, hT, hL⟩ := ih
+  subst he
+  have := run_core_congr c l2 h12
+  exact ⟨l0 ++ l2, (guarded_append _ _ _).2 ⟨hl0, this.1.1 hg2⟩, by rw [arun_append, hr]; exact this.2, hT, hL⟩
+
+theorem threadStep_sim (hwf : c.WF) : ∀ (fuel : Nat) (s : State) (t : Nat), Inv c s → TInv c s → LInv c s → WakeOk s t →
+    ∃ l, Guarded c s l ∧ core (threadStep c fuel s t).1 = core (arun c s l) ∧ TInv c (threadStep c fuel s t).1 ∧
+      LInv c (threadStep c fuel s t).1 := by
   intro fuel
   induction fuel with
-  | zero => intro s t _ hT _; exact ⟨[], trivial, rfl, hT⟩
+  | zero => intro s t _ hT hL _; exact ⟨[], trivial, rfl, hT, hL⟩
   | succ fuel ih =>
-    intro s t hI hT hW
+    intro s t hI hT hL hW
     rw [threadStep]
     cases hcur : s.cur t with
     | some b =>
@@ -964,6 +1274,9 @@ theorem threadStep_sim (hwf : c.WF) : ∀ (fuel : Nat) (s : State) (t : Nat), In
         intro h; have := hI.kindW b (Or.inr h); rw [hkb] at this; cases this
       obtain ⟨l0, hl0, he, hI1, hT1⟩ := sim_act hwf hI hT hrun hw
       have hE := agentStep_exec c s t b
+      have hP := agentStep_place c s t b
+      have hL1 : LInv c (agentStep c s t b).1 :=
+        linv_agentStep hI hL hrun (hL.live t (Or.inl (by rw [hcur]; simp)))
       -- the thread's own blocking contender is not blocked while a coroutine runs on the thread
       have hnb : (agentStep c s t b).1.tmain t = TMain.syncBody → (agentStep c s t b).1.pc t ≠ Pc.blocked := by
         intro htm hpc
@@ -976,67 +1289,88 @@ theorem threadStep_sim (hwf : c.WF) : ∀ (fuel : Nat) (s : State) (t : Nat), In
         · have := (hT.blk t htm hpc).1; rw [hcur] at this; cases this
       generalize hs1 : (agentStep c s t b).fst = s1 at *
       generalize (agentStep c s t b).2.fst = e1
-      generalize (agentStep c s t b).2.snd = o
-      have hrec : ∀ s2, core s2 = core s1 → TInv c s2 → WakeOk s2 t →
-          ∃ l, Guarded c s l ∧ core (threadStep c fuel s2 t).1 = core (arun c s l) ∧ TInv c (threadStep c fuel s2 t).1 :=
-        fun s2 h12 hT2 hW2 => sim_continue hl0 he h12 (ih s2 t (inv_core_congr h12.symm hI1) hT2 hW2)
+      generalize (agentStep c s t b).2.snd = o at *
+      have hrec : ∀ s2, core s2 = core s1 → TInv c s2 → LInv c s2 → WakeOk s2 t →
+          ∃ l, Guarded c s l ∧ core (threadStep c fuel s2 t).1 = core (arun c s l) ∧ TInv c (threadStep c fuel s2 t).1 ∧
+            LInv c (threadStep c fuel s2 t).1 :=
+        fun s2 h12 hT2 hL2 hW2 => sim_continue hl0 he h12 (ih s2 t (inv_core_congr h12.symm hI1) hT2 hL2 hW2)
       have hW1 : WakeOk s1 t := fun _ _ htm hpc => absurd hpc (hnb htm)
-      have hfin : ∃ l, Guarded c s l ∧
+      have hfin : (canRun s1 b = false ∨ b ∈ s1.rq t) → ∃ l, Guarded c s l ∧
           core (threadStep c fuel (if s1.cur t = some b then { s1 with cur := upd s1.cur t none } else s1) t).1 =
             core (arun c s l) ∧
-          TInv c (threadStep c fuel (if s1.cur t = some b then { s1 with cur := upd s1.cur t none } else s1) t).1 := by
+          TInv c (threadStep c fuel (if s1.cur t = some b then { s1 with cur := upd s1.cur t none } else s1) t).1 ∧
+          LInv c (threadStep c fuel (if s1.cur t = some b then { s1 with cur := upd s1.cur t none } else s1) t).1 := by
+        intro hnr
         split
-        · exact hrec _ rfl (tinv_clear_cur hT1 t) (fun _ _ htm hpc => absurd hpc (hnb htm))
-        · exact hrec _ rfl hT1 hW1
+        · rename_i hc1
+          exact hrec _ rfl (tinv_clear_cur hT1 t) (linv_clear_cur hL1 hc1 hnr) (fun _ _ htm hpc => absurd hpc (hnb htm))
+        · exact hrec _ rfl hT1 hL1 hW1
       cases o <;> dsimp only
-      · exact ⟨l0, hl0, by rw [he], hT1⟩
-      · exact ⟨l0, hl0, by rw [he], hT1⟩
-      · exact hfin
-      · exact hfin
-      · exact hrec _ rfl hT1 hW1
+      · exact ⟨l0, hl0, by rw [he], hT1, hL1⟩
+      · exact ⟨l0, hl0, by rw [he], hT1, hL1⟩
+      · exact hfin (Or.inl (by simp [canRun, (hP.fin rfl).1]))
+      · refine hfin ?_
+        rcases hP.susp rfl with h | h
+        · exact Or.inl (by simp [canRun, h])
+        · exact Or.inr h
+      · exact hrec _ rfl hT1 hL1 hW1
     | none =>
       dsimp only
-      have hrec0 : ∀ s2, core s2 = core s → TInv c s2 → WakeOk s2 t →
-          ∃ l, Guarded c s l ∧ core (threadStep c fuel s2 t).1 = core (arun c s l) ∧ TInv c (threadStep c fuel s2 t).1 :=
-        fun s2 h12 hT2 hW2 => sim_continue (l0 := []) trivial rfl h12 (ih s2 t (inv_core_congr h12.symm hI) hT2 hW2)
+      have hrec0 : ∀ s2, core s2 = core s → TInv c s2 → LInv c s2 → WakeOk s2 t →
+          ∃ l, Guarded c s l ∧ core (threadStep c fuel s2 t).1 = core (arun c s l) ∧ TInv c (threadStep c fuel s2 t).1 ∧
+            LInv c (threadStep c fuel s2 t).1 :=
+        fun s2 h12 hT2 hL2 hW2 =>
+          sim_continue (l0 := []) trivial rfl h12 (ih s2 t (inv_core_congr h12.symm hI) hT2 hL2 hW2)
       cases hrq : s.rq t with
       | cons b rest =>
         dsimp only
-        exact hrec0 _ rfl (tinv_pop hT hrq) (fun h => by simp at h)
+        exact hrec0 _ rfl (tinv_pop hT hrq) (linv_pop hL hcur hrq) (fun h => by simp at h)
       | nil =>
         dsimp only
         cases htm : s.tmain t with
-        | finished => exact ⟨[], trivial, rfl, hT⟩
+        | finished => exact ⟨[], trivial, rfl, hT, hL⟩
         | coroStart =>
           dsimp only
-          exact hrec0 _ rfl (tinv_start hT htm) (fun h => by simp at h)
-        | coroFlush => exact ⟨[], trivial, rfl, tinv_finish hT t⟩
+          exact hrec0 _ rfl (tinv_start hT htm) (linv_start hL hcur htm) (fun h => by simp at h)
+        | coroFlush =>
+          refine ⟨[], trivial, rfl, tinv_finish hT t, linv_finish hL hcur hrq (by rw [htm]; simp) ?_⟩
+          intro hk
+          have := hL.syncLive t hk
+          rw [htm] at this
+          exact Classical.byContradiction (fun h => by have := this h; cases this)
         | syncBody =>
           dsimp only
           have hkt := hT.syncK t htm
           have hrun : RunsAs c s t t := Or.inl ⟨hkt, rfl, hcur, hrq⟩
           obtain ⟨l0, hl0, he, hI1, hT1⟩ := sim_act hwf hI hT hrun (hW hcur hrq htm)
           have hbo := agentStep_blocked_outcome c s t t
+          have hE := agentStep_exec c s t t
+          have hP := agentStep_place c s t t
+          have hL1 : LInv c (agentStep c s t t).1 := linv_agentStep hI hL hrun (by rw [htm]; simp)
           generalize hs1 : (agentStep c s t t).fst = s1 at *
           generalize (agentStep c s t t).2.fst = e1
           generalize ho : (agentStep c s t t).2.snd = o at *
-          have hrec : ∀ s2, core s2 = core s1 → TInv c s2 → WakeOk s2 t →
-              ∃ l, Guarded c s l ∧ core (threadStep c fuel s2 t).1 = core (arun c s l) ∧ TInv c (threadStep c fuel s2 t).1 :=
-            fun s2 h12 hT2 hW2 => sim_continue hl0 he h12 (ih s2 t (inv_core_congr h12.symm hI1) hT2 hW2)
+          have hrec : ∀ s2, core s2 = core s1 → TInv c s2 → LInv c s2 → WakeOk s2 t →
+              ∃ l, Guarded c s l ∧ core (threadStep c fuel s2 t).1 = core (arun c s l) ∧
+                TInv c (threadStep c fuel s2 t).1 ∧ LInv c (threadStep c fuel s2 t).1 :=
+            fun s2 h12 hT2 hL2 hW2 => sim_continue hl0 he h12 (ih s2 t (inv_core_congr h12.symm hI1) hT2 hL2 hW2)
           cases o <;> dsimp only
-          · exact ⟨l0, hl0, by rw [he], hT1⟩
-          · exact ⟨l0, hl0, by rw [he], hT1⟩
-          · exact ⟨l0, hl0, by rw [← he]; rfl, tinv_finish hT1 t⟩
-          · exact hrec _ rfl hT1 (fun _ _ _ hpc => by have := hbo hpc; cases this)
-          · exact hrec _ rfl hT1 (fun _ _ _ hpc => by have := hbo hpc; cases this)
+          · exact ⟨l0, hl0, by rw [he], hT1, hL1⟩
+          · exact ⟨l0, hl0, by rw [he], hT1, hL1⟩
+          · obtain ⟨hd, hc, hr⟩ := hP.fin rfl
+            refine ⟨l0, hl0, by rw [← he]; rfl, tinv_finish hT1 t, linv_finish hL1 (by rw [hc]; exact hcur)
+              (by rw [hr]; exact hrq) (by rw [hE.tmain, htm]; simp) (fun _ => hd)⟩
+          · exact hrec _ rfl hT1 hL1 (fun _ _ _ hpc => by have := hbo hpc; cases this)
+          · exact hrec _ rfl hT1 hL1 (fun _ _ _ hpc => by have := hbo hpc; cases this)
 
 /-- **Every `threadStep` is a (possibly empty) sequence of guarded agent activities.**  In a state satisfying the
     invariants, what OS thread `t` does between two scheduling points (when the scheduler may run it: `enabled`)
     leads — up to the executor's bookkeeping `cur`/`rq`/`tmain` — to the same state as a list `l` of agent activities
     each of which is permitted by `canRun`. -/
-theorem threadStep_is_arun (hwf : c.WF) (hI : Inv c s) (hT : TInv c s) (fuel t : Nat) (he : enabled s t = true) :
+theorem threadStep_is_arun (hwf : c.WF) (hI : Inv c s) (hT : TInv c s) (hL : LInv c s) (fuel t : Nat)
+    (he : enabled s t = true) :
     ∃ l, Guarded c s l ∧ core (threadStep c fuel s t).1 = core (arun c s l) := by
-  obtain ⟨l, hg, hc, _⟩ := threadStep_sim hwf fuel s t hI hT (wakeOk_of_enabled he)
+  obtain ⟨l, hg, hc, _⟩ := threadStep_sim hwf fuel s t hI hT hL (wakeOk_of_enabled he)
   exact ⟨l, hg, hc⟩
 
 /-- run a schedule of OS threads, as the driver does (`fuel` bounds the executor glue inside one `threadStep`) -/
@@ -1048,26 +1382,91 @@ def TGuarded (c : Cfg) (fuel : Nat) : State → List Nat → Prop
   | _, [] => True
   | s, t :: ts => enabled s t = true ∧ TGuarded c fuel (threadStep c fuel s t).1 ts
 
-theorem threadStep_reachable (hwf : c.WF) (hs : Reachable c s) (hT : TInv c s) (fuel t : Nat) (he : enabled s t = true) :
-    Reachable c (threadStep c fuel s t).1 ∧ TInv c (threadStep c fuel s t).1 := by
-  obtain ⟨l, hg, hc, hT'⟩ := threadStep_sim hwf fuel s t (inv_reachable hwf hs) hT (wakeOk_of_enabled he)
-  exact ⟨reachable_core_congr hc.symm (reachable_arun hs l hg), hT'⟩
+theorem threadStep_reachable (hwf : c.WF) (hs : Reachable c s) (hT : TInv c s) (hL : LInv c s) (fuel t : Nat)
+    (he : enabled s t = true) :
+    Reachable c (threadStep c fuel s t).1 ∧ TInv c (threadStep c fuel s t).1 ∧ LInv c (threadStep c fuel s t).1 := by
+  obtain ⟨l, hg, hc, hT', hL'⟩ := threadStep_sim hwf fuel s t (inv_reachable hwf hs) hT hL (wakeOk_of_enabled he)
+  exact ⟨reachable_core_congr hc.symm (reachable_arun hs l hg), hT', hL'⟩
 
 /-- **Transfer to the OS-thread level.** Every state the driver/harness can reach by scheduling enabled threads is
     `Reachable`, hence all theorems about reachable states hold for it. -/
 theorem treachable_reachable (hwf : c.WF) (fuel : Nat) : ∀ (ts : List Nat) (s : State), Reachable c s → TInv c s →
-    TGuarded c fuel s ts → Reachable c (trun c fuel s ts) ∧ TInv c (trun c fuel s ts) := by
+    LInv c s → TGuarded c fuel s ts →
+    Reachable c (trun c fuel s ts) ∧ TInv c (trun c fuel s ts) ∧ LInv c (trun c fuel s ts) := by
   intro ts
   induction ts with
-  | nil => intro s hs hT _; exact ⟨hs, hT⟩
+  | nil => intro s hs hT hL _; exact ⟨hs, hT, hL⟩
   | cons t ts ih =>
-    intro s hs hT hg
-    obtain ⟨h1, h2⟩ := threadStep_reachable hwf hs hT fuel t hg.1
-    exact ih _ h1 h2 hg.2
+    intro s hs hT hL hg
+    obtain ⟨h1, h2, h3⟩ := threadStep_reachable hwf hs hT hL fuel t hg.1
+    exact ih _ h1 h2 h3 hg.2
 
 theorem trun_init_reachable (hwf : c.WF) (fuel : Nat) (ts : List Nat) (hg : TGuarded c fuel (init c) ts) :
     Reachable c (trun c fuel (init c) ts) :=
-  (treachable_reachable hwf fuel ts _ (reachable_init c) (tinv_init c) hg).1
+  (treachable_reachable hwf fuel ts _ (reachable_init c) (tinv_init c) (linv_init c) hg).1
+
+/-- agent level: if no agent's code can run, every agent is done -/
+theorem inv_stuck_done (h : Inv c s) (hstuck : ∀ a, canRun s a = false) : ∀ a, s.pc a = Pc.done := by
+  have hno : ∀ a, ¬ Owner s a := fun a ha => by have := owner_canRun ha; rw [hstuck a] at this; cases this
+  obtain ⟨hr, hq⟩ := h.free hno
+  intro a
+  have hc := h.cnt a
+  rw [hr, hq] at hc
+  have hnl : ¬ Listed s a := by
+    intro hl; rw [if_pos hl] at hc; simp at hc
+  have hst := hstuck a
+  unfold canRun at hst
+  unfold Listed at hnl
+  generalize s.pc a = p at *
+  cases p <;> simp_all [isWaiting]
+
+theorem enabled_false {s : State} {t : Nat} (h : enabled s t = false) (htm : s.tmain t ≠ TMain.finished) :
+    s.cur t = none ∧ s.rq t = [] ∧ s.pc t = Pc.blocked ∧ s.tmain t = TMain.syncBody ∧ s.flag t = false := by
+  unfold enabled at h
+  split at h
+  · rename_i hm; exact absurd hm htm
+  · split at h
+    · cases h
+    · split at h
+      · cases h
+      · split at h
+        · rename_i hb; exact ⟨by assumption, by assumption, hb.1, hb.2, h⟩
+        · cases h
+
+/-- OS-thread level: if no thread is enabled, every agent is done and every thread has finished -/
+theorem threads_stuck_done (h : Inv c s) (hL : LInv c s) (hstuck : ∀ t, enabled s t = false) :
+    (∀ a, s.pc a = Pc.done) ∧ ∀ t, s.tmain t = TMain.finished := by
+  have hen := fun t (htm : s.tmain t ≠ TMain.finished) => enabled_false (hstuck t) htm
+  have hcan : ∀ a, canRun s a = false := by
+    intro a
+    apply Classical.byContradiction
+    intro hne
+    have hca : canRun s a = true := by simpa using hne
+    cases hk : c.kind a with
+    | sync =>
+      have hnd : s.pc a ≠ Pc.done := by intro hd; simp [canRun, hd] at hca
+      have htm := hL.syncLive a hk hnd
+      obtain ⟨_, _, hb, _, hf⟩ := hen a (by rw [htm]; simp)
+      simp [canRun, hb, hf] at hca
+    | coro =>
+      rcases hL.loc a hk hca with ⟨t, h1⟩ | h1
+      · have hlive := hL.live t (by
+          rcases h1 with h1 | h1
+          · left; rw [h1]; simp
+          · right; intro e; rw [e] at h1; cases h1)
+        obtain ⟨hc, hr, _⟩ := hen t hlive
+        rcases h1 with h1 | h1
+        · rw [hc] at h1; cases h1
+        · rw [hr] at h1; cases h1
+      · obtain ⟨_, _, _, hsb, _⟩ := hen a (by rw [h1]; simp)
+        rw [h1] at hsb; cases hsb
+  have hdone := inv_stuck_done h hcan
+  refine ⟨hdone, ?_⟩
+  intro t
+  apply Classical.byContradiction
+  intro htm
+  obtain ⟨_, _, hb, _⟩ := hen t htm
+  rw [hdone t] at hb; cases hb
 
 /-! ## concrete scenarios used by the `example`s next to the property theorems -/
 
